@@ -3,7 +3,7 @@
    Model: TextReader (sk_scan, skip_container_loop, suv_scan, skip_unquoted_value_loop) over BufWin.
    Specification: TextSkipRef (sk_scan_bytes, sref / skip_ref, skip_need, tok_count, uv_ref). *)
 From JV Require Import Bytes Tables U64Swar BufWin TextTok TextReader TextRef TextSkipRef.
-From JV.proofs Require Import BufWinProofs TextReaderMainProofs TextSkipProofs.
+From JV.proofs Require Import BufWinProofs TextReaderMainProofs TextSkipProofs TextSkipStreamProofs.
 Open Scope nat_scope.
 
 (* 1. The 8-byte SWAR step (contains_zero_byte for quote / hash / brace detection, count_chunk for
@@ -38,3 +38,63 @@ Theorem C09_text_scan_skip_ref : forall fuel w, length w < fuel ->
   end.
 Proof. exact scan_whole_skip_ref. Qed.
 Print Assumptions C09_text_scan_skip_ref.
+
+(* 3. MAIN (streaming): [rok input r] is the invariant of the streaming reader (C07: the consumed
+   prefix, the window and the unread data make up the input; the schedule has no I/O failure; the
+   window fits the buffer) -- it holds for a fresh reader and after every token.
+   [stream_of r] = window ++ unread data.  For every such state, every schedule and every buffer
+   with  skip_need (stream_of r) <= cap  (1 byte; 3 bytes if the skipped text has a backslash
+   inside a quoted string, because the Quote state looks 2 bytes past a backslash), and for the
+   bufferless slice window:  skip_container consumes exactly [skip_ref] bytes of the remaining
+   stream (stream contents, position and capacity of the resulting state are given), and it
+   returns Eof exactly when the reference finds no matching close. *)
+Theorem C09_text_stream_eq_ref : forall input fuel r,
+  wf_bytes input -> rok input r -> skip_cap_ok r -> length (rest (rrd r)) < fuel ->
+  match skip_ref (stream_of r) with
+  | Some n => exists r', skip_container fuel r = Ok r' /\ rok input r' /\
+                         stream_of r' = skipn n (stream_of r) /\
+                         reader_position r' = reader_position r + n /\ cap (rbw r') = cap (rbw r)
+  | None => skip_container fuel r = Err E_Eof
+  end.
+Proof. exact skip_container_stream. Qed.
+Print Assumptions C09_text_stream_eq_ref.
+
+(* the bound is exact: a non-empty buffer below skip_need (that is 1 or 2 bytes while the skipped
+   text has a backslash inside a quoted string) never yields a wrong landing position: the skip
+   fails with BufferFull (or with Eof, and then only if there is no matching close anyway) *)
+Theorem C09_text_stream_full : forall input fuel r,
+  wf_bytes input -> rok input r -> 0 < cap (rbw r) < skip_need (stream_of r) ->
+  length (rest (rrd r)) < fuel ->
+  skip_container fuel r = Err E_BufferFull \/
+  (skip_container fuel r = Err E_Eof /\ skip_ref (stream_of r) = None).
+Proof. exact skip_container_full. Qed.
+Print Assumptions C09_text_stream_full.
+
+Theorem C09_text_rok_new : forall input capv sch, no_fail sch -> rok input (reader_new capv input sch).
+Proof. exact rok_new. Qed.
+
+Theorem C09_text_skip_need_le : forall s, 1 <= skip_need s <= 3.
+Proof. exact skip_need_le. Qed.
+
+(* non-vacuity: the input  a={ Q}\Q{Q # }<LF> {x} } z=1  (Q = double quote)  read with 1-byte reads into a 3-byte buffer; after
+   the tokens  a = {  the skip lands 21 bytes further, exactly where skip_ref says, and the next
+   token is z; with a 2-byte buffer the skip reports BufferFull *)
+Definition C09_text_ex_input : bytes :=
+  [97;61;123;32;34;125;92;34;123;34;32;35;32;125;10;32;123;120;125;32;125;32;122;61;49]%N.
+Definition C09_text_ex_after_open (capv : nat) : reader :=
+  match next_opt 200 (reader_new capv C09_text_ex_input (repeat (Data 1) 40)) with
+  | NTok _ r1 => match next_opt 200 r1 with
+                 | NTok _ r2 => match next_opt 200 r2 with NTok ROpen r3 => r3 | _ => r2 end
+                 | _ => r1 end
+  | _ => reader_new capv C09_text_ex_input []
+  end.
+Example C09_text_ex :
+  let r := C09_text_ex_after_open 3 in
+  reader_position r = 3 /\ skip_ref (stream_of r) = Some 18 /\ skip_need (stream_of r) = 3 /\
+  match skip_container 200 r with
+  | Ok r' => reader_position r' = 21 /\
+             match next_opt 200 r' with NTok t _ => t = RUnq [122%N] | _ => False end
+  | _ => False
+  end /\
+  skip_container 200 (C09_text_ex_after_open 2) = Err E_BufferFull.
+Proof. vm_compute. repeat split; reflexivity. Qed.
